@@ -1,6 +1,6 @@
 (* Dispatch.v — single entry point used by the OCaml runner and by the in-Coq
    cross-check: component name + input value -> observation value. *)
-From XV Require Import Base Options Worker Sched.
+From XV Require Import Base Options Worker Sched System.
 
 Definition dispatch (name : string) (input : sx) : sx :=
   if String.eqb name "options" then run_options input
@@ -12,6 +12,7 @@ Definition dispatch (name : string) (input : sx) : sx :=
   else if String.eqb name "worker_trace" then run_worker_trace input
   else if String.eqb name "sched" then run_sched input
   else if String.eqb name "split" then run_split input
+  else if String.eqb name "system" then run_system input
   else SL [SS "unknown-component"].
 
 (* used by generated cases_*.v files: indices of cases whose model output
